@@ -87,7 +87,9 @@ pub fn gen_scenario(r: &mut Sm, case: u64, tier: &str, lowrank: bool) -> Scenari
     if gaussian {
         // exact Gaussian window; condition number up to 1e12
         let logc = r.range(0.0, 6.0);
-        let mu: Vec<f64> = (0..dim).map(|_| r.range(-3.0, 3.0)).collect();
+        // location in units of the standard deviation: ordinary, or far from the origin (|mean|/sd up to 1e7)
+        let far = (case / 6) % 2 == 1;
+        let mu: Vec<f64> = (0..dim).map(|_| if far { r.range(-1.0, 1.0) * 10f64.powf(r.range(2.0, 7.0)) } else { r.range(-3.0, 3.0) }).collect();
         let sd: Vec<f64> = (0..dim).map(|_| 10f64.powf(r.range(-logc, logc))).collect();
         let point = |r: &mut Sm| -> (Vec<f64>, Vec<f64>) {
             let x: Vec<f64> = (0..dim).map(|i| mu[i] * sd[i] + sd[i] * r.normal()).collect();
@@ -171,13 +173,14 @@ pub fn oracle(sc: &Scenario, outs: &[AdaptOut]) -> Option<(String, String)> {
                 }
                 if fg.len() < 3 && o.changed { return Some((format!("{kind}.early_change"), format!("adapt #{k} changed the transformation with {} samples", fg.len()))); }
                 if let Some((mean, sd)) = &sc.gaussian {
-                    if fg.len() >= 3 && !sc.lowrank {
+                    if fg.len() >= 3 {
                         if !o.changed { return Some((format!("{kind}.no_update"), format!("adapt #{k}: {} samples but no update", fg.len()))); }
                         for c in 0..sc.dim {
                             // conditioning of the variance ratio: |mean| / sd
-                            let tol = 1e-9 * (1.0 + mean[c].abs() / sd[c]);
-                            if ((o.stds[c] - sd[c]) / sd[c]).abs() > tol { return Some(("diag.gaussian_scale".into(), format!("adapt #{k}: coordinate {c} std {} but the Gaussian has {} ({} samples)", o.stds[c], sd[c], fg.len()))); }
-                            if ((o.mean[c] - mean[c]) / sd[c]).abs() > tol * 10.0 { return Some(("diag.gaussian_mean".into(), format!("adapt #{k}: coordinate {c} mean {} but the Gaussian has {} (std {})", o.mean[c], mean[c], sd[c]))); }
+                            // the draws themselves are rounded to eps*|mean|, i.e. relative to sd by eps*|mean|/sd; everything else is O(n eps)
+                            let tol = 2e-12 * (1.0 + mean[c].abs() / sd[c]) * (fg.len() as f64);
+                            if ((o.stds[c] - sd[c]) / sd[c]).abs() > tol { return Some((format!("{kind}.gaussian_scale"), format!("adapt #{k}: coordinate {c} std {} but the Gaussian has {} ({} samples, |mean|/sd = {:.3e})", o.stds[c], sd[c], fg.len(), mean[c].abs() / sd[c]))); }
+                            if ((o.mean[c] - mean[c]) / sd[c]).abs() > tol * 10.0 { return Some((format!("{kind}.gaussian_mean"), format!("adapt #{k}: coordinate {c} mean {} but the Gaussian has {} (std {})", o.mean[c], mean[c], sd[c]))); }
                         }
                     }
                 }
@@ -211,7 +214,9 @@ impl ChainCfg {
         let mut r = Sm::new(self.seed, "C08T", 0);
         let d = self.dim;
         let sd: Vec<f64> = (0..d).map(|_| 10f64.powf(r.range(-self.logc, self.logc))).collect();
-        let mu: Vec<f64> = (0..d).map(|i| r.range(-2.0, 2.0) * sd[i]).collect();
+        // every third target sits far from the origin (|mean|/sd up to 1e6)
+        let far = self.seed % 3 == 0;
+        let mu: Vec<f64> = (0..d).map(|i| r.range(-2.0, 2.0) * sd[i] * if far { 10f64.powf(r.range(2.0, 6.0)) } else { 1.0 }).collect();
         if !self.lowrank { return Target::new(Kind::Diag { mu, sigma: sd }, d); }
         // covariance D (I + rho u u^T) D, precision D^-1 (I - rho/(1 + rho |u|^2) u u^T) D^-1
         let u: Vec<f64> = (0..d).map(|_| r.normal()).collect();
